@@ -255,8 +255,8 @@ theorem pcKeep_congr {a b c : Sys} {ex : Option Name} (h : PcKeep a b ex) (e : c
 
 theorem wakeOne_pcs {inp : RunInput} {s : Sys} {pst : RS} {p w : Name} {nd : Node} (hw : s.nodes w = some nd) :
     PcKeep s (wakeOne inp s pst p w nd) none := by
-  have hu := wokenNode_upd inp pst p nd
-  have base := pcKeep_setNode_same (x := wokenNode inp pst p nd) hw hu.pc
+  have hu := wokenF_upd inp s pst p nd
+  have base := pcKeep_setNode_same (x := wokenF inp s pst p nd) hw hu.pc
   unfold wakeOne; split
   · exact pcKeep_congr base rfl
   · exact base
